@@ -44,6 +44,10 @@ CHECKS = {
    technique="TLA+ spec LinTrans (matrix given by diagonals, baby-step giant-step regrouping, rotation sets): TLC proves the regrouping equals the matrix-vector product for every diagonal set of small dimension, enumerates every 4-slot transformation, and validates recorded bgv/ckks lintrans evaluations",
    text="TLC checks that the baby-step giant-step regrouping equals the plain matrix-vector product for every set of diagonals over rows of 2, 4 (and 8, thorough) slots, every power-of-two N1 and the N1 chosen by the ratio rule, with rotations inside (0,h); TLC enumerates every set of diagonals with indices in (-4,4) x ratio x level x entry point, the harness adds seeded scenarios on 8- and 16-slot rows (Evaluate, EvaluateNew, EvaluateMany(New) with 2-3 matrices of different levels and ratios, EvaluateSequential(New)); each runs on the real bgv (t=17/97/193, one or two P primes at LevelP 0/1) and ckks (sparse, full, conjugate-invariant) evaluators with a key set holding exactly the advertised Galois elements and a receiver holding unrelated data; TLC recomputes the product from the recorded diagonals and input (exact mod t, exact Gaussian integers for ckks) and checks output level, scale, untouched input and requested-subset-of-advertised keys.",
    note="Trusted: TLC, the LinTrans/Galois specifications, lattigo's encoder/decryptor as projection. ckks outputs are compared after rounding (1/64). Permutation.GetDiagonals and parameter sets without P are not driven."),
+ "C13": dict(spec="PolyEval / PolyEvalGen / PolyEvalTrace", design="DESIGN.md §5 C13",
+   technique="TLA+ spec PolyEval (exact modular / dyadic-rational polynomial values, Chebyshev recurrence, level and scale accounting, admission rule): TLC enumerates every evaluation shape; recorded bgv/ckks polynomial evaluations validated by TLC",
+   text="TLC enumerates every shape: degree 0..15 x monomial/Chebyshev basis x general/odd/even (parity flags set) x zeroed leading coefficient x single polynomial / two-polynomial vector with unmapped slots / precomputed power basis x input level (one below, exactly, one above the documented depth, maximum) x default / non-default target scale x standard / scale-invariant integer mode; each runs on the real bgv (t=97) and ckks (sparse, full, conjugate-invariant) polynomial evaluators with seeded coefficients; TLC recomputes p(x) per slot exactly (mod t; dyadic rationals for half-integer ckks inputs, tolerance 2^-10), zero on unmapped slots, output level = input - ceil(log2(deg+1)) (input level in invariant mode), output scale = target, refusal by error below the needed depth, and the documented Chebyshev change of basis.",
+   note="Trusted: TLC, the PolyEval specification, lattigo encoder/decryptor as projection. Degree 0 is a recorded known finding (panic). Polynomial vectors are only run on fully packed ciphertexts (sparse packing is refused with an error by the coefficient getter). Composite circuits (sign, step, inverse, mod1) are not driven."),
  "C14": dict(spec="MPKeyGen / MPKeyGenGen / MPKeyGenTrace", design="DESIGN.md §5 C14",
    technique="TLA+ spec MPKeyGen (shares as member sets with tags, digest-functional aggregation): TLC enumerates all aggregation schedules; replay on the multiparty protocols; TLC trace validation",
    text="TLC enumerates every aggregation schedule for 3 and 4 parties (all merge orders, operand orders, in-place or fresh outputs, serialisation hops; 5-8 parties by simulation) and checks the share algebra; each schedule is replayed on the real public-key, evaluation-key, Galois-key and two-round relinearisation-key protocols for seven key parameterisations (incl. unequal prime sizes with base-2 digits, two P primes, no P); the trace must show digests that depend only on the member set, refusals of mismatched shares, and a finalised key that works under the ideal secret with bounded noise.",
